@@ -35,11 +35,18 @@ TAStart ==
   /\ AStart(ev.H, ev.A, ev.R)
   /\ Consume /\ UNCHANGED <<varsB, varsC, scen, mode, live>>
 
+\* a peer that lies about its ids (aA = -1): the algorithm runs on the answers it gave
+TLStart ==
+  /\ IsEvent("LStart")
+  /\ AStart(ev.H, -1, ev.R)
+  /\ Consume /\ UNCHANGED <<varsB, varsC, scen, mode, live>>
+
 TProbe ==
   /\ IsEvent("Probe")
-  /\ (SeekProbe \/ FindProbe)
+  /\ ~Has(ev, "lost")                        \* (a probe the peer answered with garbage or by hanging up ends the search)
+  /\ (SeekProbeO(ev.ov) \/ FindProbeO(ev.ov))
   /\ probes' = Append(probes, ev.n)          \* the height the spec probes is the height the implementation asked for
-  /\ ev.ov = Overlapped(ev.n)                \* and the peer's answer is what the chains imply
+  /\ aA >= 0 => ev.ov = Overlapped(ev.n)     \* and (honest peer) the answer is what the chains imply
   /\ Consume /\ UNCHANGED <<varsB, varsC, scen, mode, live>>
 
 TASilent ==
@@ -53,6 +60,18 @@ TAResult ==
   /\ ev.err = ""
   /\ ev.anc = res
   /\ Consume /\ UNCHANGED <<varsA, varsB, varsC, scen, mode, live>>
+
+\* the search against a lying peer failed (undecodable answer, hang-up): wherever it stood, nothing was touched
+TLLost ==
+  /\ IsEvent("Probe") /\ Has(ev, "lost") /\ aA = -1
+  /\ apc \in {"seek", "find"}
+  /\ ev.n = (IF apc = "seek" THEN aH - bw ELSE IF st = en THEN st ELSE (st + en) \div 2)    \* it was the next probe
+  /\ Consume /\ UNCHANGED <<varsA, varsB, varsC, scen, mode, live>>
+TLResult ==
+  /\ IsEvent("LResult")
+  /\ aA = -1 /\ ev.err # "" /\ ev.same
+  /\ apc' = "done" /\ res' = 0                \* the search is over (with an error)
+  /\ Consume /\ UNCHANGED <<aH, aA, aR, bw, st, en, anc, probes, varsB, varsC, scen, mode, live>>
 
 (* ---------------------------------------------------------------- (B) *)
 TBStart ==
@@ -71,6 +90,16 @@ TSStart ==
          q == [i \in 1..Len(ev.stream) |-> IF ev.stream[i].id = "nil" THEN Nil ELSE ev.stream[i]]
      IN BStartWith(S, b, ev.anc, q, TRUE)
   /\ mode' = "free" /\ live' = Stages
+  /\ Consume /\ UNCHANGED <<varsA, varsC, scen>>
+
+\* the download after a search against a lying peer starts from what the algorithm made of the answers
+TBStartL ==
+  /\ IsEvent("BStartL")
+  /\ aA = -1 /\ apc = "done"
+  /\ LET S == ToSet(ev.local)
+         b == CHOOSE x \in S : x.id = ev.best
+     IN BStart(S, b, res)
+  /\ mode' = ev.sched /\ live' = Stages
   /\ Consume /\ UNCHANGED <<varsA, varsC, scen>>
 
 Answer(e) == IF e.t = "blocks" THEN [t |-> "blocks", bs |-> e.bs] ELSE [t |-> e.t]
@@ -176,7 +205,7 @@ TSyncEnd ==
 TNote == IsEvent("Note") /\ Consume /\ UNCHANGED <<vars, mode>>
 
 Init == IdleA /\ IdleB /\ IdleC /\ scen = NoScen /\ live = {} /\ l = 1 /\ mode = "free" /\ HWMInit
-Next == TAStart \/ TProbe \/ TASilent \/ TAResult \/ TBStart \/ TSStart \/ TFetch \/ TBSilent \/ TBExit \/ TBEnd \/ TConn \/ TMsg
+Next == TAStart \/ TLStart \/ TProbe \/ TLLost \/ TLResult \/ TASilent \/ TAResult \/ TBStart \/ TBStartL \/ TSStart \/ TFetch \/ TBSilent \/ TBExit \/ TBEnd \/ TConn \/ TMsg
         \/ TSyncEnd \/ TNote
 Spec == Init /\ [][Next]_tvars
 
@@ -184,7 +213,7 @@ Progress == HWM(l)
 TraceAccepted == Accepted(Len(Trace))
 
 \* design invariants evaluated on the observed executions
-TInvA == AncestorCorrect /\ ProbesInRange /\ ProbesBounded /\ FindWindow
+TInvA == AncestorCorrect /\ LiarHarmless /\ ProbesInRange /\ ProbesBounded /\ FindWindow
 \* ParentClosed is quadratic in the store: on long chains it is evaluated when the download has ended only
 TInvB == /\ NoInvalidStored /\ FaultReported /\ DroppedIsError /\ SequenceGuards
          /\ (Cardinality(store) <= 50 \/ status # "run") => ParentClosed
